@@ -207,7 +207,9 @@ class InversionImagingWTilde(AbstractInversionImaging):
         separation of functions enables the `data_vector` to be preloaded in certain circumstances.
         """
 
-        data_vector = self._data_vector_mapper
+        # Copied because the rows of the linear function objects are written into it below, and `_data_vector_mapper`
+        # returns the caller's `preloads.data_vector_mapper` array itself when it is preloaded.
+        data_vector = copy.copy(self._data_vector_mapper)
 
         linear_func_param_range = self.param_range_list_from(
             cls=AbstractLinearObjFuncList
